@@ -1,6 +1,113 @@
-// Contract harnesses for ntp-proto/src/algorithm/kalman/source.rs (child module: sees private items).
-#![allow(unused_imports)]
+// Contract harnesses for ntp-proto/src/algorithm/kalman/source.rs (C10: the filter's desired poll
+// interval stays within the configured limits).
+#![allow(unused_imports, dead_code)]
 use super::*;
+use crate::verif_common::harness;
+use crate::packet::NtpLeapIndicator;
+
+fn dur(v: i64) -> NtpDuration {
+    NtpDuration::from_bits(v.to_be_bytes())
+}
+
+fn any_filter(desired: PollInterval, poll_score: i32) -> SourceFilter<NtpDuration, AveragingBuffer> {
+    SourceFilter {
+        state: KalmanState {
+            state: Vector::new_vector([kani::any(), kani::any()]),
+            uncertainty: Matrix::new([[kani::any(), kani::any()], [kani::any(), kani::any()]]),
+            time: NtpTimestamp::from_bits(kani::any()),
+        },
+        clock_wander: kani::any(),
+        noise_estimator: AveragingBuffer::default(),
+        precision_score: kani::any(),
+        poll_score,
+        desired_poll_interval: desired,
+        last_measurement: InternalMeasurement {
+            delay: dur(kani::any()),
+            offset: dur(kani::any()),
+            localtime: NtpTimestamp::from_bits(kani::any()),
+            root_delay: dur(kani::any()),
+            root_dispersion: dur(kani::any()),
+            leap: NtpLeapIndicator::NoWarning,
+            precision: kani::any(),
+        },
+        last_monotime: tokio::time::Instant::now(),
+        prev_was_outlier: kani::any(),
+        last_iter: NtpTimestamp::from_bits(kani::any()),
+    }
+}
+
+/// invariant of SourceFilter: limits.min <= desired_poll_interval <= limits.max and |poll_score| < hysteresis.
+/// requires: limits.min <= limits.max, hysteresis >= 1 (configuration), invariant holds before;
+/// ensures: invariant holds after, for EVERY p / weight / measurement period (including NaN, inf);
+/// never panics (no i32 / i8 overflow).
+harness! {
+    fn c10_p_update_desired_poll_keeps_limits() {
+        let min: i8 = kani::any();
+        let max: i8 = kani::any();
+        kani::assume(min <= max);
+        let limits = PollIntervalLimits { min: PollInterval::from_byte(min as u8), max: PollInterval::from_byte(max as u8) };
+        let d: i8 = kani::any();
+        kani::assume(min <= d && d <= max);
+        let hyst: i32 = kani::any();
+        kani::assume(hyst >= 1);
+        let score: i32 = kani::any();
+        kani::assume(score > -hyst && score < hyst);
+        let mut f = any_filter(PollInterval::from_byte(d as u8), score);
+        let sc = SourceConfig { poll_interval_limits: limits, initial_poll_interval: PollInterval::from_byte(d as u8) };
+        let mut ac = AlgorithmConfig::default();
+        ac.poll_interval_hysteresis = hyst;
+        ac.poll_interval_low_weight = kani::any();
+        ac.poll_interval_high_weight = kani::any();
+        ac.poll_interval_step_threshold = kani::any();
+        let p: f64 = kani::any();
+        let weight: f64 = kani::any();
+        let period: f64 = kani::any();
+        f.update_desired_poll(&sc, &ac, p, weight, period);
+        let nd = f.desired_poll_interval.as_log();
+        assert!(min <= nd && nd <= max);
+        assert!(f.poll_score > -hyst && f.poll_score < hyst);
+        // it moves by at most one step, or jumps to the minimum
+        assert!(nd == d || nd == min || nd as i16 == d as i16 + 1 || nd as i16 == d as i16 - 1);
+        kani::cover!(nd as i16 == d as i16 + 1, "increase reachable");
+        kani::cover!(nd as i16 == d as i16 - 1 && nd != min, "decrease reachable");
+        kani::cover!(nd == min && d as i16 > min as i16 + 1, "reset to minimum reachable");
+    }
+}
+
+/// the interval reported to the source (SourceState::get_desired_poll): the minimum while the
+/// filter initialises, otherwise the filter's own desired interval (within limits by the invariant).
+harness! {
+    fn c10_p_get_desired_poll() {
+        let min: i8 = kani::any();
+        let max: i8 = kani::any();
+        kani::assume(min <= max);
+        let limits = PollIntervalLimits { min: PollInterval::from_byte(min as u8), max: PollInterval::from_byte(max as u8) };
+        let d: i8 = kani::any();
+        kani::assume(min <= d && d <= max);
+        let stable = SourceState(SourceStateInner::Stable(any_filter(PollInterval::from_byte(d as u8), 0)));
+        assert!(stable.get_desired_poll(&limits).as_log() == d);
+        let initial: SourceState<NtpDuration, AveragingBuffer> = SourceState(SourceStateInner::Initial(InitialSourceFilter {
+            noise_estimator: AveragingBuffer::default(),
+            init_offset: AveragingBuffer::default(),
+            last_measurement: None,
+            samples: kani::any(),
+        }));
+        assert!(initial.get_desired_poll(&limits).as_log() == min);
+        kani::cover!(true, "reachable");
+    }
+}
+
+harness! {
+    fn c10_canary_desired_poll_unbounded() {
+        let limits = PollIntervalLimits::default();
+        let mut f = any_filter(limits.max, 0);
+        let sc = SourceConfig { poll_interval_limits: limits, initial_poll_interval: limits.min };
+        let mut ac = AlgorithmConfig::default();
+        ac.poll_interval_hysteresis = 1;
+        f.update_desired_poll(&sc, &ac, kani::any(), kani::any(), kani::any());
+        assert!(f.desired_poll_interval == limits.max);
+    }
+}
 
 #[cfg(all(kani, test))]
 mod replay {
